@@ -18,6 +18,7 @@ import (
 	"os"
 	"os/exec"
 	"path/filepath"
+	"sort"
 	"strings"
 	"sync"
 	"sync/atomic"
@@ -340,7 +341,7 @@ func (in *sysInst) Stop(grace time.Duration) (clean bool) {
 		return true
 	case <-time.After(grace):
 	}
-	_ = in.cmd.Process.Signal(syscall.SIGQUIT)
+	_ = in.cmd.Process.Signal(syscall.SIGABRT)
 	select {
 	case <-in.done:
 	case <-time.After(10 * time.Second):
@@ -364,7 +365,7 @@ func (in *sysInst) Kill() {
 // Dump asks for a goroutine dump (SIGQUIT ends the process).
 func (in *sysInst) Dump() string {
 	if !in.Exited() {
-		_ = in.cmd.Process.Signal(syscall.SIGQUIT)
+		_ = in.cmd.Process.Signal(syscall.SIGABRT)
 		select {
 		case <-in.done:
 		case <-time.After(10 * time.Second):
@@ -373,7 +374,7 @@ func (in *sysInst) Dump() string {
 	}
 	b, _ := os.ReadFile(in.LogPath)
 
-	return sysTail(string(b), 20000)
+	return string(b)
 }
 
 // Log returns the process log.
@@ -458,3 +459,62 @@ func (ls *sysListServer) URL(path string) string {
 }
 
 func (ls *sysListServer) Stop() { _ = ls.srv.Close() }
+
+// sysSummarizeDump groups the goroutines of a Go crash dump by state and by
+// their innermost product frames, so that a witness of a stall stays small.
+func sysSummarizeDump(log string) (summary []string, lockers string) {
+	i := strings.Index(log, "SIGABRT")
+	if i < 0 {
+		i = 0
+	}
+	counts := map[string]int{}
+	var lockStacks []string
+	for _, g := range strings.Split(log[i:], "\n\n") {
+		g = strings.TrimSpace(g)
+		if !strings.HasPrefix(g, "goroutine ") {
+			continue
+		}
+		lines := strings.Split(g, "\n")
+		state := lines[0]
+		if a, b := strings.Index(state, "["), strings.Index(state, "]"); a >= 0 && b > a {
+			state = strings.SplitN(state[a+1:b], ",", 2)[0]
+		}
+		var prod []string
+		for _, l := range lines[1:] {
+			if strings.HasPrefix(l, "\t") {
+				continue
+			}
+			if strings.Contains(l, "AdGuardHome/internal") || strings.Contains(l, "dnsproxy/") {
+				f := l
+				if k := strings.LastIndex(f, "("); k > 0 {
+					f = f[:k]
+				}
+				if k := strings.LastIndex(f, "/"); k >= 0 {
+					f = f[k+1:]
+				}
+				prod = append(prod, f)
+				if len(prod) == 4 {
+					break
+				}
+			}
+		}
+		key := state + " :: " + strings.Join(prod, " <- ")
+		counts[key]++
+		if strings.Contains(state, "Mutex") && len(prod) > 0 && counts[key] == 1 && len(lockStacks) < 12 {
+			s := g
+			if len(s) > 2500 {
+				s = s[:2500]
+			}
+			lockStacks = append(lockStacks, s)
+		}
+	}
+	for k, v := range counts {
+		summary = append(summary, fmt.Sprintf("%4d %s", v, k))
+	}
+	sort.Sort(sort.Reverse(sort.StringSlice(summary)))
+	if len(summary) > 40 {
+		summary = summary[:40]
+	}
+
+	return summary, strings.Join(lockStacks, "\n\n")
+}
